@@ -213,13 +213,12 @@ impl Freelist {
         };
 
         if count == 0 {
-            if next_trunk == 0 {
-                self.head_page = 0;
-                self.free_count = 0;
-                return Ok(None);
-            }
+            // The trunk holds no entries: the trunk page itself is the free page to hand
+            // out. (It was released like any other page and is counted in free_count.)
+            let page_no = self.head_page;
             self.head_page = next_trunk;
-            return self.allocate(storage);
+            self.free_count -= 1;
+            return Ok(Some(page_no));
         }
 
         let entry_index = (count - 1) as usize;
@@ -244,10 +243,6 @@ impl Freelist {
         let trunk = TrunkHeader::from_bytes_mut(&mut page_data[trunk_offset..])?;
         trunk.set_count(count - 1);
         self.free_count -= 1;
-
-        if count - 1 == 0 {
-            self.head_page = next_trunk;
-        }
 
         Ok(Some(page_no))
     }
